@@ -4,7 +4,7 @@
 (158) still passes, demo fails with the patch. Usage: import_seeds.py /tmp/seed/C08/_seed/1 [...]"""
 import json, os, re, shutil, subprocess, sys
 
-W = "/tmp/verifywt"
+W = os.environ.get("VERIFYWT", "/tmp/verifywt")
 ENV = dict(os.environ, GOFLAGS="-mod=mod", GOPROXY="off")
 ENV.pop("GOSUMDB", None); ENV.pop("GOTOOLCHAIN", None)
 
@@ -43,6 +43,8 @@ def main():
             n = str(int(n) + 2)  # second seeding round
         if "/seed3/" in d:
             n = str(int(n) + 4)  # third seeding round
+        if "/seed9/" in d:
+            n = str(int(n) + 16)  # ninth seeding round
         if "/seed8/" in d:
             n = str(int(n) + 14)  # eighth seeding round
         if "/seed7/" in d:
